@@ -160,6 +160,13 @@ impl CharProperty {
                 let (category, invoke, group, length) = Self::parse_char_category(line)?;
                 let new_cate_id = u32::try_from(cate_map.len()).unwrap();
                 let cate_id = *cate_map.entry(category).or_insert(new_cate_id);
+                // The set of categories of a character is packed into CATE_IDSET_BITS bits.
+                if usize::from_u32(cate_id) >= CATE_IDSET_BITS {
+                    let msg = format!(
+                        "The number of categories must be no more than {CATE_IDSET_BITS}, {line}"
+                    );
+                    return Err(VibratoError::invalid_format("char.def", msg));
+                }
                 let cinfo = CharInfo::new(0, cate_id, invoke, group, length).ok_or_else(|| {
                     let msg = format!(
                         "LENGTH must be less than {} and the number of categories no more than {}, {line}",
